@@ -755,7 +755,7 @@ class Polyhedron(Shape3D):
         if b not in self.neighbors[a]:
             raise ValueError("The two faces are not neighbors.")
         n1, n2 = self._equations[[a, b], :3]
-        return np.arccos(np.dot(-n1, n2))
+        return np.arccos(np.clip(np.dot(-n1, n2), -1.0, 1.0))
 
     def plot(self, ax=None, plot_verts=False, label_verts=False):
         """Plot the polyhedron.
